@@ -557,6 +557,7 @@ def _vector_hooks():
         "std::begin<*": lambda ev, o, a: It(a[0], 0),
         "std::end<*": lambda ev, o, a: It(a[0], len(a[0].items)),
         "std::find<*": lambda ev, o, a: next((It(a[0].vec, i) for i in range(a[0].pos, a[1].pos) if ev.binop("==", a[0].vec.items[i], a[2])), a[1].copy_value()),
+        "std::reverse<*": lambda ev, o, a: a[0].vec.items.__setitem__(slice(a[0].pos, a[1].pos), a[0].vec.items[a[0].pos:a[1].pos][::-1]),
         "std::next<*": lambda ev, o, a: a[0].arith("+", a[1] if len(a) > 1 else 1),
         "std::prev<*": lambda ev, o, a: a[0].arith("-", a[1] if len(a) > 1 else 1),
         "std::distance<*": lambda ev, o, a: a[1].pos - a[0].pos,
@@ -566,6 +567,68 @@ def _vector_hooks():
         "std::min<*": lambda ev, o, a: a[1] if a[1] < a[0] else a[0],
         "std::max<*": lambda ev, o, a: a[1] if a[0] < a[1] else a[0],
     }
+
+
+class OStream:
+    """std::ostream collecting its output; the formatting flags the repository uses are modelled"""
+    def __init__(self):
+        self.out = []
+        self.base, self.showbase, self.boolalpha = 10, False, False
+
+    @property
+    def addr(self):
+        return id(self)
+
+    def copy_value(self):
+        return self
+
+    def text(self):
+        return "".join(self.out)
+
+    def put(self, v, t=None):
+        if isinstance(v, Sym):
+            q = v.q
+            if q in ("std::hex", "std::oct", "std::dec"):
+                self.base = {"std::hex": 16, "std::oct": 8, "std::dec": 10}[q]
+            elif q in ("std::showbase", "std::noshowbase"):
+                self.showbase = q == "std::showbase"
+            elif q in ("std::boolalpha", "std::noboolalpha"):
+                self.boolalpha = q == "std::boolalpha"
+            elif q in ("std::endl<char, std::char_traits<char>>", "std::endl"):
+                self.out.append("\n")
+            elif q in ("std::flush<char, std::char_traits<char>>", "std::flush"):
+                pass
+            else:
+                raise Broken("stream manipulator %s is not modelled" % q)
+            return self
+        if isinstance(v, bool):
+            self.out.append(("true" if v else "false") if self.boolalpha else ("1" if v else "0"))
+            return self
+        if isinstance(v, StdStr):
+            self.out.append(v.b.decode("latin-1"))
+            return self
+        if isinstance(v, Ptr):
+            self.out.append(v.cstr())
+            return self
+        if isinstance(v, int):
+            ti = tinfo(t)
+            if ti is not None and ti[0] == 8:
+                self.out.append(chr(v & 0xff))       # a char
+                return self
+            if self.base == 10:
+                self.out.append(str(v))
+            else:
+                # hex/oct output converts to the unsigned representation of the operand's width
+                bits = ti[0] if ti else 64
+                u = v & ((1 << bits) - 1)
+                digits = ("%x" if self.base == 16 else "%o") % u
+                prefix = ("0x" if self.base == 16 else "0") if (self.showbase and u != 0) else ""
+                self.out.append(prefix + digits)
+            return self
+        raise Broken("insertion of %r into a stream is not modelled" % (v,))
+
+
+UNION_ALIASES = {"mpz_class": {"m_u": "unsigned long", "m_i": "long"}}
 
 
 class CxxEvaluator(Evaluator):
@@ -627,6 +690,13 @@ class CxxEvaluator(Evaluator):
         args = [conv(a, p.get("t")) for p, a in zip(func["params"], args)] + list(args[len(func["params"]):])
         return conv(Evaluator.call(self, func, this, args), func.get("ret"))
 
+    def _alias_sync(self, obj, field, val):
+        """members of an anonymous union share their bytes: a store to one is visible, reinterpreted, through the others"""
+        al = UNION_ALIASES.get(getattr(obj, "_cls", None))
+        if al and field in al and isinstance(val, (int, bool)):
+            for other, t in al.items():
+                setattr(obj, other, conv(val, t))
+
     def construct(self, func, this, args):
         """constructor from source: delegating and member initialisers (in declaration order as recorded), then the body"""
         env = {}
@@ -654,6 +724,7 @@ class CxxEvaluator(Evaluator):
                 if i["field"] == "":
                     continue        # anonymous union member: initialised through its named members
                 setattr(this, i["field"], v)
+                self._alias_sync(this, i["field"], v)
         from absint import Ret
         try:
             self.block(func.get("body"), env, this)
@@ -715,12 +786,16 @@ class CxxEvaluator(Evaluator):
         if k == "ref" and e.get("d") == "func":
             f = self.prog.funcs.get(e.get("fid")) if self.prog else None
             if f is None:
-                raise Broken("reference to function %s whose body is not known" % e.get("q"))
+                return Sym.of(e.get("q"))        # a library function used as a value (stream manipulators)
             return f
         if k == "un" and e.get("op") == "&":
             u = e["e"]
             while isinstance(u, dict) and u.get("k") == "cast":
                 u = u["e"]
+            if isinstance(u, dict) and u.get("k") == "call" and u.get("fn") == "operator*":
+                it = self.eval(u.get("obj") if u.get("obj") is not None else u["a"][0], env, this)
+                if isinstance(it, It) and not isinstance(it, RIt) and it.vec.items and isinstance(it.vec.items[0], (int, bool)):
+                    return Ptr(it.vec.items, it.pos)      # address of an element of a vector of scalars: a pointer into its storage
             if isinstance(u, dict) and u.get("k") == "ref" and u.get("d") in ("local", "param", "slocal"):
                 cur = env.get(u["id"])
                 if cur is None or isinstance(cur, (int, bool)):
@@ -863,6 +938,18 @@ class CxxEvaluator(Evaluator):
             if len(args) == 1 and isinstance(args[0], Obj) and args[0]._cls == T:
                 return args[0].copy_value()
             raise Broken("cannot resolve the constructor of %s with %d arguments (%d candidates)" % (T, len(args), len(cands)))
+        if k == "call" and e.get("fn") == "operator<<" and e.get("a") and not (self.prog is not None and (self.prog.funcs.get(e.get("fid")) or {}).get("body") is not None):
+            # insertion into a std::ostream (member or free operator<< of the library)
+            aa = ([e["obj"]] if e.get("obj") is not None else []) + list(e["a"])
+            if len(aa) == 2:
+                strm = self.eval(aa[0], env, this)
+                if isinstance(strm, OStream):
+                    val = self.eval(aa[1], env, this)
+                    ua = unwrap(aa[1])
+                    t = ua.get("t") if isinstance(ua, dict) else None
+                    if isinstance(ua, dict) and ua.get("k") == "chr":
+                        t = "char"
+                    return strm.put(val, t)
         if k == "call" and e.get("f", "").startswith("std::swap<") and len(e.get("a", [])) == 2:
             a = self.eval(e["a"][0], env, this)
             b = self.eval(e["a"][1], env, this)
@@ -922,5 +1009,6 @@ class CxxEvaluator(Evaluator):
                 if hasattr(b, "on_store"):
                     val = b.on_store(u["n"], val)
                 setattr(b, u["n"], val)
+                self._alias_sync(b, u["n"], val)
             return
         return Evaluator.store(self, lhs, val, env, this)
